@@ -38,7 +38,11 @@ WellFormed(g, n) == /\ g[1] \in KnownNames
                     /\ g[2] \in 0..(n - 1)
                     /\ IF IsTwo(g) THEN g[3] \in 0..(n - 1) /\ g[3] # g[2] ELSE g[3] = -1
 
-Apply(g, p) == CASE g[1] \in {"id", "i"} -> p
+(* anything that is not a well-formed gate of the vocabulary acts as the identity here; trace specs flag it (clause unknown-gate) *)
+Applicable(g) == /\ g[1] \in KnownNames /\ g[2] \in 0..7
+                 /\ (IsTwo(g) => g[3] \in 0..7 /\ g[3] # g[2])
+Apply(g, p) == IF ~Applicable(g) THEN p ELSE
+               CASE g[1] \in {"id", "i"} -> p
                  [] g[1] = "x"    -> GX(g[2], p)
                  [] g[1] = "y"    -> GY(g[2], p)
                  [] g[1] = "z"    -> GZ(g[2], p)
